@@ -102,6 +102,21 @@ fn child() {
     // C12: one shared reloadable stack, created before the race
     let mut reload_handle = None;
     let mut modify_handle: Option<Arc<Mutex<Box<dyn Fn(&RFilter) -> bool + Send>>>> = None;
+    // the same replacement through Handle::modify, whose closure yields to the scheduler WHILE the handle's write lock is held
+    let mut set_handle: Option<Arc<Mutex<Box<dyn Fn(&RFilter) -> bool + Send>>>> = None;
+    macro_rules! setter {
+        ($h:expr, $conv:ident) => {{
+            let h3 = $h.clone();
+            set_handle = Some(Arc::new(Mutex::new(Box::new(move |v: &RFilter| {
+                let nv = v.$conv();
+                h3.modify(move |f| {
+                    vh_common::sched::point("reload.closure.holding_write");
+                    *f = nv;
+                })
+                .is_ok()
+            }) as Box<dyn Fn(&RFilter) -> bool + Send>)));
+        }};
+    }
     let mut shared: Option<Dispatch> = None;
     if let Some(r) = sc.get("reload") {
         let v0 = RFilter::of(&r["values"][0]);
@@ -112,6 +127,7 @@ fn child() {
             let (f, h) = tracing_subscriber::reload::Subscriber::new(v0.env());
             shared = Some(Dispatch::new(tracing_subscriber::registry().with(f).with(RecLayer { log: log.clone() })));
             let h2 = h.clone();
+            setter!(h, env);
             reload_handle = Some(Arc::new(Mutex::new(Box::new(move |v: &RFilter| h.reload(v.env()).is_ok()) as Box<dyn Fn(&RFilter) -> bool + Send>)));
             // the in-place edit: the installed filter is taken out, gets one more directive and is put back (Handle::modify)
             modify_handle = Some(Arc::new(Mutex::new(Box::new(move |v: &RFilter| {
@@ -125,14 +141,17 @@ fn child() {
             // a reloadable Option<Targets> global layer ABOVE the recording layer: None means the layer is absent
             let (f, h) = tracing_subscriber::reload::Subscriber::new(v0.opt_targets());
             shared = Some(Dispatch::new(tracing_subscriber::registry().with(RecLayer { log: log.clone() }).with(f)));
+            setter!(h, opt_targets);
             reload_handle = Some(Arc::new(Mutex::new(Box::new(move |v: &RFilter| h.reload(v.opt_targets()).is_ok()) as Box<dyn Fn(&RFilter) -> bool + Send>)));
         } else if r["kind"] == "perlayer" {
             let (f, h) = tracing_subscriber::reload::Subscriber::new(v0.targets());
             shared = Some(Dispatch::new(tracing_subscriber::registry().with(RecLayer { log: log.clone() }.with_filter(f))));
+            setter!(h, targets);
             reload_handle = Some(Arc::new(Mutex::new(Box::new(move |v: &RFilter| h.reload(v.targets()).is_ok()) as Box<dyn Fn(&RFilter) -> bool + Send>)));
         } else {
             let (f, h) = tracing_subscriber::reload::Subscriber::new(v0.targets());
             shared = Some(Dispatch::new(tracing_subscriber::registry().with(f).with(RecLayer { log: log.clone() })));
+            setter!(h, targets);
             reload_handle = Some(Arc::new(Mutex::new(Box::new(move |v: &RFilter| h.reload(v.targets()).is_ok()) as Box<dyn Fn(&RFilter) -> bool + Send>)));
         }
     }
@@ -144,8 +163,8 @@ fn child() {
     std::thread::scope(|s| {
         for (j, script) in scripts.iter().enumerate() {
             let t = j as u64 + 1;
-            let (log, out, filters, survivors, panicked, shared, reload_handle, modify_handle, sc) =
-                (log.clone(), out.clone(), filters.clone(), survivors.clone(), panicked.clone(), shared.clone(), reload_handle.clone(), modify_handle.clone(), &sc);
+            let (log, out, filters, survivors, panicked, shared, reload_handle, modify_handle, set_handle, sc) =
+                (log.clone(), out.clone(), filters.clone(), survivors.clone(), panicked.clone(), shared.clone(), reload_handle.clone(), modify_handle.clone(), set_handle.clone(), &sc);
             s.spawn(move || {
                 VT.with(|v| v.set(t));
                 sched::enter(t);
@@ -190,6 +209,9 @@ fn child() {
                                 let v = RFilter::of(&sc["reload"]["values"][op["v"].as_u64().unwrap() as usize]);
                                 if op["how"] == "modify_add" {
                                     let h = modify_handle.as_ref().unwrap().lock().unwrap();
+                                    o["ok"] = json!(h(&v));
+                                } else if op["how"] == "modify_set" {
+                                    let h = set_handle.as_ref().unwrap().lock().unwrap();
                                     o["ok"] = json!(h(&v));
                                 } else {
                                     let h = reload_handle.as_ref().unwrap().lock().unwrap();
